@@ -83,7 +83,7 @@ TRAVERSAL = [b"/../secret", b"/sub/../../secret", b"/..", b"/...", b"/a..b", b"/
              b"/?..", b"/..?", b"/.\t./secret", b"/. ./secret", b"/.%00./secret", b"/\x2e\x2e/secret", b"/a/..",
              b"/index.vnc?a=../../secret", b"/..;/secret", b"/.../.../secret", b"/sub/..%2f..%2fsecret", b"/..\x00/secret"]
 QUERIES = [b"?a=b", b"?a=b&c=d", b"?name=x+y", b"?a.b_c:[1]=Z9", b"?", b"?&", b"?a", b"?a=", b"?=b", b"?a=b&", b"?a=b&&c=d",
-           b"?a==b", b"?a=b=c", b"?a=<script>", b"?a=\"", b"?a=b;c", b"?a=%41", b"?a=b&c=\x80", b"?a=b?c=d", b"?a=b&c",
+           b"?a==b", b"?a=b=c", b"?a=<script>", b"?a=\"", b"?a=b;c", b"?a=%41", b"?a=b&c=\x80", b"?a=b?c=d", b"?a=b&c", b"?a=b&c=", b"?a=b&c=d&e",
            b"?a=b&=c", b"?+=+", b"?a=b c", b"?a=\xe9", b"?a=b&c=d&e=f&g=h", b"?A=1&B=2", b"?a='", b"?a=b>", b"?a=b/c",
            b"?a=-", b"?a=b\\", b"?[]=[]", b"?:=:", b"?.=.", b"?_=_", b"?a=b&x", b"?x=\x7f", b"?x=@", b"?x=`", b"?x={",
            b"?x=/", b"?x=0", b"?x=9", b"?x=:", b"?x=;", b"?x=Z", b"?x=[", b"?x=\\", b"?x=]", b"?x=^", b"?x=z", b"?x=~"]
@@ -497,6 +497,47 @@ def params_from_this_request(region, candidates):
     return any(all(g in pairs_of(q) for g in got) for q in candidates)
 
 
+SIMPLE_SEG = re.compile(rb"[A-Za-z0-9_.:\[\]+]+=[A-Za-z0-9_.:\[\]+]+\Z")
+
+
+def documented_params(q):
+    """what $PARAMS must be for a plainly well-formed query (None: not plainly well-formed, no claim)"""
+    if q is None:
+        return b""
+    out = b""
+    for seg in q.split(b"&"):
+        if len(seg) > 100 or not SIMPLE_SEG.match(seg):
+            return None
+        n, v = seg.split(b"=", 1)
+        out += b'<PARAM NAME="%s" VALUE="%s">\n' % (n.replace(b"+", b" "), v.replace(b"+", b" "))
+    return out if len(out) <= 1000 else None
+
+
+def documented_subst(c, env, params):
+    """the documented $-substitution of a .vnc page (one fread chunk, no NUL), written from the comments in
+    httpd.c / the classic index.vnc: first match in the order WIDTH HEIGHT APPLETWIDTH APPLETHEIGHT PORT DESKTOP
+    DISPLAY USER PARAMS, "$$" -> "$", any other "$" stays; inserted text is not looked at again"""
+    table = [(b"$WIDTH", b"%d" % env["w"]), (b"$HEIGHT", b"%d" % env["h"]), (b"$APPLETWIDTH", b"%d" % env["w"]),
+             (b"$APPLETHEIGHT", b"%d" % (env["h"] + 32)), (b"$PORT", b"%d" % env["port"]), (b"$DESKTOP", env["desktop"]),
+             (b"$DISPLAY", env["host"] + b":%d" % (env["port"] - 5900)),
+             (b"$USER", env["user"] if env["user"] is not None else b"?"), (b"$PARAMS", params)]
+    out, i = bytearray(), 0
+    while i < len(c):
+        if c[i] != 0x24:
+            out.append(c[i])
+            i += 1
+            continue
+        for name, val in table:
+            if c.startswith(name, i):
+                out += val
+                i += len(name)
+                break
+        else:
+            out.append(0x24)
+            i += 2 if c.startswith(b"$$", i) else 1
+    return bytes(out)
+
+
 def parse_ob(ob):
     d = {}
     for t in ob.split():
@@ -519,10 +560,15 @@ def oracle(sc, impl):
     ops = [l for l in sc["script"].splitlines() if l]
     proxy = sc["proxy"]
     hist = b""          # bytes sent on the current connection before this burst
+    env = {"w": 16, "h": 8, "port": sc["port"], "desktop": b"verif desk", "host": b"vhost", "user": b"vuser"}
     for i, (op, ob) in enumerate(zip(ops, impl)):
         t = op.split()
         if t[0] in ("newconn", "hangup"):
             hist = b""
+        if t[0] == "cfg" and ob == "ok":
+            env["port"] = int(t[2])
+        if t[0] == "env" and ob == "ok":
+            env["desktop"], env["user"] = unhx(t[1]), (None if t[2] == "none" else unhx(t[2]))
         if t[0] == "cfg":
             proxy = int(t[1])
         if "rfb=dead" in ob:
@@ -598,6 +644,23 @@ def oracle(sc, impl):
                 if not params_from_this_request(region, cands):
                     return ("op %d: $PARAMS expansion is not derived from this request's query %r "
                             "(state of another request leaks into this answer): %r" % (i, cands[0], region))
+                docs = [documented_params(q) for q in cands]
+                if None not in docs and region not in docs:
+                    return ("op %d: $PARAMS expansion %r is not the documented one %r for the well-formed query %r"
+                            % (i, region, docs[0], cands[0]))
+            if want.endswith(b".vnc") and c is not None and len(c) <= BUF - 1 and b"\x00" not in c:
+                marked = c.count(b"\x01") == 1 and b"\x01$PARAMS\x02" in c and c.count(b"$PARAMS") == 1
+                pv = None
+                if b"$PARAMS" not in c:
+                    pv = b""
+                elif marked and d["par"] != "-":
+                    pv = unhx(d["par"][1:])
+                elif query_of(seen) is None and query_of(whole) is None:
+                    pv = b""
+                if pv is not None and int(d["bhash"], 16) != fnv(documented_subst(c, env, pv)):
+                    return ("op %d: body of %r is not the page with the documented $-substitutions "
+                            "(width 16, height 8, port %d, desktop %r, user %r)"
+                            % (i, want, env["port"], env["desktop"], env["user"]))
         else:
             if opened and vg is None:
                 return "op %d: file opened for something that is not a GET of a path below the directory" % i
